@@ -46,13 +46,17 @@ func c09StallKey(in *c09In) string {
 type c09StallBody struct {
 	ctx     context.Context
 	release <-chan struct{}
-	sent    bool
+	data    []byte // what comes before the silence
+	pos     int
+	c09BodyLife
 }
 
 func (b *c09StallBody) Read(p []byte) (int, error) {
-	if !b.sent {
-		b.sent = true
-		return copy(p, `<?xml version="1.0" encoding="UTF-8"?><soap:Envelope xmlns:soap="`+nsSOAP+`"><soap:Body>`), nil
+	b.reading()
+	if b.pos < len(b.data) {
+		n := copy(p, b.data[b.pos:])
+		b.pos += n
+		return n, nil
 	}
 	select {
 	case <-b.ctx.Done():
@@ -61,7 +65,18 @@ func (b *c09StallBody) Read(p []byte) (int, error) {
 		return 0, io.ErrUnexpectedEOF
 	}
 }
-func (b *c09StallBody) Close() error { return nil }
+
+// c09StallPrefix is what a "stallbody" endpoint sends of a complete valid answer before it goes silent:
+// nothing, half of it, or all of it (the end of the stream never comes).
+func c09StallPrefix(full []byte, rdpt string) []byte {
+	switch rdpt {
+	case "start":
+		return nil
+	case "end":
+		return full
+	}
+	return full[:len(full)/2]
+}
 
 // c09Reached counts the requests the stalled endpoint has seen; ch is closed at the first.
 type c09Reached struct {
@@ -78,17 +93,24 @@ func (r *c09Reached) Load() int32 { return r.n.Load() }
 
 // c09StallRT is the stalled endpoint as an http.RoundTripper: like net/http.Transport it gives up
 // only when the context of the request it was handed is done.
-func c09StallRT(res string, reached *c09Reached, release <-chan struct{}) http.RoundTripper {
+// answer builds the complete valid answer to the ArtifactResolve it is given; the body that was handed
+// out is stored in served.
+func c09StallRT(in *c09In, reached *c09Reached, release <-chan struct{}, answer func(req []byte) []byte, closeErr error, served *atomic.Pointer[c09StallBody]) http.RoundTripper {
+	res := in.Res
 	return rtFunc(func(r *http.Request) (*http.Response, error) {
+		var req []byte
 		if r.Body != nil {
-			io.Copy(io.Discard, r.Body)
+			req, _ = io.ReadAll(r.Body)
 			r.Body.Close()
 		}
 		reached.Add(1)
 		if res == "stallbody" {
+			b := &c09StallBody{ctx: r.Context(), release: release, data: c09StallPrefix(answer(req), in.Rdpt)}
+			b.closeErr = closeErr
+			served.Store(b)
 			return &http.Response{StatusCode: 200, Status: "200 OK", Proto: "HTTP/1.1", ProtoMajor: 1, ProtoMinor: 1,
 				Header: http.Header{"Content-Type": {"text/xml"}}, ContentLength: -1, Request: r,
-				Body: &c09StallBody{ctx: r.Context(), release: release}}, nil
+				Body: b}, nil
 		}
 		select {
 		case <-r.Context().Done():
@@ -109,7 +131,8 @@ type c09StallListener struct {
 	wg    sync.WaitGroup
 }
 
-func c09StallListen(res string, reached *c09Reached) (*c09StallListener, error) {
+func c09StallListen(in *c09In, reached *c09Reached, answer func(req []byte) []byte) (*c09StallListener, error) {
+	res := in.Res
 	ln, err := net.Listen("tcp", "127.0.0.1:0")
 	if err != nil {
 		return nil, err
@@ -134,11 +157,13 @@ func c09StallListen(res string, reached *c09Reached) (*c09StallListener, error) 
 				if err != nil {
 					return
 				}
-				io.Copy(io.Discard, req.Body)
+				body, _ := io.ReadAll(req.Body)
 				reached.Add(1)
 				if res == "stallbody" {
-					fmt.Fprintf(conn, "HTTP/1.1 200 OK\r\nContent-Type: text/xml\r\nContent-Length: 100000\r\n\r\n"+
-						`<?xml version="1.0" encoding="UTF-8"?><soap:Envelope xmlns:soap="`+nsSOAP+`"><soap:Body>`)
+					// the announced length is never reached: the body goes silent where the class says
+					full := answer(body)
+					fmt.Fprintf(conn, "HTTP/1.1 200 OK\r\nContent-Type: text/xml\r\nContent-Length: %d\r\n\r\n", len(full)+100000)
+					conn.Write(c09StallPrefix(full, in.Rdpt))
 				}
 				// nothing more is written; the read returns when the peer or stop() closes the connection
 				io.Copy(io.Discard, br)
@@ -170,12 +195,19 @@ func (c *c09Ctx) runStall(v *c09Vec) []c09Obs {
 	if in.Client == "default" {
 		modes = []string{"tcp"}
 	}
+	if in.Close == "err" {
+		// the body of a real connection is net/http's own: its Close cannot be made to fail
+		modes = []string{"rt"}
+		if in.Client == "default" {
+			return []c09Obs{{Variant: "rt", Broken: "a body whose Close fails cannot be served to http.DefaultClient"}}
+		}
+	}
 	var out []c09Obs
 	for _, mode := range modes {
 		var o c09Obs
 		for bound, try := c09StallBound, 0; try < 4; bound, try = 4*bound, try+1 {
 			var hit bool
-			if o, hit = c.runStallOnce(in, mode, bound); hit || o.Hang || o.Panic != "" || o.Shape != "" || o.Broken != "" {
+			if o, hit = c.runStallOnce(v, mode, bound); hit || o.Hang || o.Panic != "" || o.Shape != "" || o.Broken != "" {
 				break
 			}
 		}
@@ -186,9 +218,22 @@ func (c *c09Ctx) runStall(v *c09Vec) []c09Obs {
 
 // runStallOnce returns the observation and whether the stalled endpoint saw the request (if it
 // did not, the bound ended before the wait began: nothing was exercised).
-func (c *c09Ctx) runStallOnce(in *c09In, mode string, bound time.Duration) (c09Obs, bool) {
+func (c *c09Ctx) runStallOnce(v *c09Vec, mode string, bound time.Duration) (c09Obs, bool) {
+	in := &v.In
 	o := c09Obs{Variant: mode}
+	if mode == "tcp" {
+		o.BodyCloses = -1 // net/http's own body
+	}
 	s := c09SPFor(in)
+	token := hashKey(fmt.Sprintf("%s/%s/%v", c09CaseKey(v), mode, bound))
+	var served atomic.Pointer[c09StallBody]
+	answer := func(req []byte) []byte {
+		id := ""
+		if m := reResolveID.FindSubmatch(req); m != nil {
+			id = string(m[1])
+		}
+		return c.envelopeXML(in.Env, in.Resp, id, "ok", "", in.Ki, in.Encx)
+	}
 	reached := &c09Reached{ch: make(chan struct{})}
 	release := make(chan struct{})
 	var cleanup []func()
@@ -202,9 +247,9 @@ func (c *c09Ctx) runStallOnce(in *c09In, mode string, bound time.Duration) (c09O
 	var transport http.RoundTripper
 	switch mode {
 	case "rt":
-		transport = c09StallRT(in.Res, reached, release)
+		transport = c09StallRT(in, reached, release, answer, c09CloseErr(in, token), &served)
 	case "tcp":
-		l, err := c09StallListen(in.Res, reached)
+		l, err := c09StallListen(in, reached, answer)
 		if err != nil {
 			o.Broken = "no loopback listener for the stalled resolver: " + err.Error()
 			return o, false
@@ -266,6 +311,9 @@ func (c *c09Ctx) runStallOnce(in *c09In, mode string, bound time.Duration) (c09O
 		took = time.Since(t0)
 		o.respResult(a, err)
 	})
+	if b := served.Load(); b != nil && !o.Hang {
+		b.observe(&o, token)
+	}
 	switch {
 	case o.Hang:
 		o.Calls = append(o.Calls, fmt.Sprintf("still blocked %v after the %s bound of %v ended (endpoint reached %d times)", c09StallGrace, in.Bound, bound, reached.Load()))
